@@ -217,6 +217,12 @@ def r10_2(ctx, m):
     f = m.f
     # region between the write loop and the dump
     body = f.node.body
+    # (a `with` block around both passes - a reader closed on success - is looked into)
+    while True:
+        both = [st for st in body if isinstance(st, ast.With) and any(x is m.pass2 for x in ast.walk(st)) and m.dump is not None and any(x is m.dump for x in ast.walk(st)) and st is not m.pass2]
+        if len(both) != 1:
+            break
+        body = both[0].body
     # locate the top-level statement containing pass2 and the one containing dump
     i2 = next(i for i, st in enumerate(body) if any(x is m.pass2 for x in ast.walk(st)))
     idump = next((i for i, st in enumerate(body) if any(x is m.dump for x in ast.walk(st))), None)
